@@ -27,9 +27,10 @@ CLAIM = {
 
 THEOREMS = [
     "Okane.Print.C19_indent", "Okane.Print.C19_indent_text", "Okane.Print.C19_gap", "Okane.Print.C19_column",
-    "Okane.Print.C19_column_display", "Okane.Print.C19_balance", "Okane.Print.C19_balance_same_column",
-    "Okane.Print.C19_blank", "Okane.Print.C19_fallback", "Okane.Print.alignment_le_length",
-    "Okane.Print.trailing_no_underflow", "Okane.Print.std_numOK",
+    "Okane.Print.C19_column_display", "Okane.Print.C19_column_std", "Okane.Print.C19_fallback", "Okane.Print.C19_balance",
+    "Okane.Print.C19_balance_same_column", "Okane.Print.C19_blank", "Okane.Print.alignment_le_length",
+    "Okane.Print.trailing_no_underflow", "Okane.Print.std_numOK", "Okane.Print.std_symOK", "Okane.Print.std_numNoLF",
+    "Okane.Print.entryLines_nlf",
 ]
 
 # ------------------------------------------------------------------------------------------------
@@ -469,14 +470,16 @@ def oracle(entries, out, meas_all, with_fmt_rule=True):
 
 def parse_record(rec):
     """hx c19 text|tree record -> dict(tree=[...], out=str, fmt=str|None, meas=[...]) or dict(error=...)."""
-    if not rec.startswith("ok "):
+    status = rec.split(" ", 1)[0]
+    if status not in ("ok", "parse-error"):
         return {"error": rec}
+    rec = "ok" + rec[len(status):]
     a = rec.index(" out=")
     b = rec.index(" fmt=", a)
     c = rec.index(" meas=", b)
     tree = sx_parse(rec[len("ok tree="):a])[0]
     fmt = rec[b + 5:c]
-    return {"tree": tree, "tree_text": rec[len("ok tree="):a], "out": dec(rec[a + 5:b]), "fmt": None if fmt == "-" else dec(fmt),
+    return {"status": status, "tree": tree, "tree_text": rec[len("ok tree="):a], "out": dec(rec[a + 5:b]), "fmt": None if fmt == "-" else dec(fmt),
             "meas": sx_parse(rec[c + 6:])[0]}
 
 
@@ -637,7 +640,13 @@ def text_cases(chk, W, count):
                         body += "    ; " + rng.choice(["more", ":x:y:"]) + "\n"
                 entries.append(head + "\n" + body)
         sep = lambda: "\n" * rng.randint(1, 3)  # noqa: E731
-        cases.append({"precs": {}, "text": "".join(e + sep() for e in entries), "tag": "text:random"})
+        tag = "text:random"
+        if rng.random() < 0.12:
+            # a malformed entry: format must have written exactly the entries before it
+            entries.insert(rng.randint(0, len(entries)), rng.choice(["2024/13/45 bad date\n", "    orphan posting  1 USD\n",
+                                                                      "2024/01/01 x\n    A  1,2,3 USD\n", "apply tagg foo\n"]))
+            tag = "text:malformed"
+        cases.append({"precs": {}, "text": "".join(e + sep() for e in entries), "tag": tag})
     return cases
 
 
@@ -804,14 +813,13 @@ def run(chk):
         tag = c["tag"]
         rerun = "echo '%s' | %s c19 %s" % (c["line"], HX, c["mode"])
         if "error" in p:
-            if c["mode"] == "text" and p["error"].startswith("parse-error"):
-                chk.count("text rejected by the parser (skipped)")
-                continue
             chk.case(c["line"])
             chk.oracle_failures += 1
             chk.violation("the printer did not print: %s" % p["error"][:200], {"case": c["line"], "observed": p["error"], "rerun": rerun})
             continue
         entries = p["tree"]
+        if p["status"] == "parse-error":
+            chk.count("text with a parse error: %d entries written before it" % min(len(entries), 3))
         if c["mode"] == "tree" and sx_str(entries) != sx_str(c["entries"]):
             raise AssertionError("harness decoded a different tree than generated: %s" % c["line"][:300])
         has_layout = any(e[0] == "txn" and any(q[3] or q[4] for q in e[6]) for e in entries)
@@ -830,7 +838,8 @@ def run(chk):
             if p["fmt"] is not None:
                 # FormatOptions::format (default context) must be the same text when no precision is declared
                 if not c["precs"] and p["fmt"] != p["out"]:
-                    fails.append("FormatOptions::format output differs from printing every entry followed by an empty line")
+                    fails.append("FormatOptions::format wrote something else than every entry (parsed before the first error) "
+                                 "followed by an empty line")
         except Mismatch as e:
             fails = ["printed text does not have the structure of the tree: %s" % e]
             facts = []
